@@ -725,3 +725,146 @@ Proof.
   eexists. eexists. split; [cbn; tauto|]. split; [vm_compute; discriminate|].
   split; [vm_compute; reflexivity|]. vm_compute. repeat split; reflexivity.
 Qed.
+
+(** * The DML core: what the model parser returns (DmlCoreInv.v).
+    [C01_dml_roundtrip] above is about every well-formed statement tree; for PARSER OUTPUTS its hypothesis [mwf] is a
+    theorem: one invariant per parser function of the DML model, on top of the invariants of the query core
+    ([QueryCoreInv.parse_query_inv_u0] and its per-entry-point lemmas, instantiated for both dialects the DML
+    parsers run the query-core parsers under, [qd d] and [qdx d]) and of [site_inv] for the runs in front of a DML
+    keyword and the re-runs with the keyword demoted to a name.  What remains a hypothesis is, exactly:
+    - canonical spelling and the conservative test [frag_ok], as for the query core;
+    - [mplain]: no name of the tree is a DML keyword ([mwf] demands it; [C01_dml_output_plain_refuted]);
+    - [mres_ins]: not [INSERT INTO t () (query)] (MySQL; known finding dml:insert-empty-columns-parenthesised-source).
+    The conjuncts of [mwf] about a keyword following an optional alias and about USING after a join without constraint
+    are theorems in every generated dialect ([C01_dml_tables_res]) and false of parser outputs otherwise. *)
+Require SqlV.DmlCoreInv.
+
+(** generated side conditions: RETURNING and SET are reserved where the model consults the lists; with trailing
+    commas on, USING does not end a list *)
+Lemma C01_dml_tables_res : forall d, In d DmlTables.all_mdialects -> DmlCoreInv.mdialect_res d = true.
+Proof.
+  intros d H. cbn [DmlTables.all_mdialects In] in H.
+  repeat (destruct H as [H|H]; [subst d; vm_compute; reflexivity|]). destruct H.
+Qed.
+
+(** every statement tree the model parser returns is well-formed, [frag_ok] on its expressions apart *)
+Theorem C01_dml_outputs_wf : forall d fuel ts s rest,
+  In d DmlTables.all_mdialects -> QueryCoreInv.fits ts ->
+  DmlCore.parse_dml_core d fuel ts = Ok (s, rest) ->
+  DmlCoreInv.mcanonical s = true -> DmlCoreInv.mplain s = false -> DmlCoreInv.mres_ins d s = true ->
+  DmlCoreInv.mwfg false d s = true.
+Proof.
+  intros d fuel ts s rest Hin.
+  exact (DmlCoreInv.dml_outputs_wf_res d fuel ts s rest (C01_dml_tables_ok d Hin) (C01_dml_tables_res d Hin)).
+Qed.
+Print Assumptions C01_dml_outputs_wf.
+
+(** ... and satisfies all of [mwf] when its expressions also pass the conservative fragment test [frag_ok] *)
+Theorem C01_dml_outputs_mwf : forall d fuel ts s rest,
+  In d DmlTables.all_mdialects -> QueryCoreInv.fits ts ->
+  DmlCore.parse_dml_core d fuel ts = Ok (s, rest) ->
+  DmlCoreInv.mcanonfrag d s = true -> DmlCoreInv.mplain s = false -> DmlCoreInv.mres_ins d s = true ->
+  DmlCoreProofs.mwf d s = true.
+Proof.
+  intros d fuel ts s rest Hin.
+  exact (DmlCoreInv.dml_outputs_mwf_res d fuel ts s rest (C01_dml_tables_ok d Hin) (C01_dml_tables_res d Hin)).
+Qed.
+Print Assumptions C01_dml_outputs_mwf.
+
+(** for every dialect record (not only the generated ones): with the three conjuncts [mres] as hypotheses *)
+Theorem C01_dml_outputs_wf_any : forall d fuel ts s rest,
+  DmlCoreProofs.mdialect_ok d = true -> QueryCoreInv.fits ts ->
+  DmlCore.parse_dml_core d fuel ts = Ok (s, rest) ->
+  DmlCoreInv.mcanonical s = true -> DmlCoreInv.mplain s = false -> DmlCoreInv.mres d s = true ->
+  DmlCoreInv.mwfg false d s = true.
+Proof. intros d fuel ts s rest. exact (DmlCoreInv.dml_outputs_wf d fuel ts s rest). Qed.
+Print Assumptions C01_dml_outputs_wf_any.
+
+(** parse -> print -> parse is a fixpoint for every accepted token list (outputs are well-formed +
+    [C01_dml_roundtrip]); the two syntactic fragment tests ([frag_ok] in [mcanonfrag], [mfrag] on the printed
+    tokens) stay hypotheses *)
+Theorem C01_dml_fixpoint : forall d fuel ts s rest,
+  In d DmlTables.all_mdialects -> QueryCoreInv.fits ts ->
+  DmlCore.parse_dml_core d fuel ts = Ok (s, rest) ->
+  DmlCoreInv.mcanonfrag d s = true -> DmlCoreInv.mplain s = false -> DmlCoreInv.mres_ins d s = true ->
+  DmlCoreProofs.mfrag d (DmlCore.mtoks s ++ rest) = true -> QueryCoreProofs.ender rest = true ->
+  forall fuel', (DmlCoreProofs.mlevel s <= fuel')%nat ->
+  DmlCore.parse_dml_core d fuel' (DmlCore.mtoks s ++ rest) = Ok (s, rest).
+Proof.
+  intros d fuel ts s rest Hin.
+  exact (DmlCoreInv.dml_fixpoint_res d fuel ts s rest (C01_dml_tables_ok d Hin) (C01_dml_tables_res d Hin)).
+Qed.
+Print Assumptions C01_dml_fixpoint.
+
+(** the rest is a suffix of the input - both with the demoted DML keywords restored: [site] hands a keyword it
+    has re-read as a name on to the rest in that spelling *)
+Theorem C01_dml_suffix : forall d fuel ts s rest,
+  In d DmlTables.all_mdialects ->
+  DmlCore.parse_dml_core d fuel ts = Ok (s, rest) ->
+  exists pre, map DmlCore.unplain ts = pre ++ map DmlCore.unplain rest.
+Proof.
+  intros d fuel ts s rest Hin. exact (DmlCoreInv.dml_suffix d fuel ts s rest (C01_dml_tables_ok d Hin)).
+Qed.
+Print Assumptions C01_dml_suffix.
+
+(** ** the hypotheses cannot be dropped (computed witnesses; [dml_out d ts P]: the input is accepted entirely and
+    [P] holds of the tree) *)
+Definition dml_out (d : DmlCore.mdialect) (ts : list qtok) (P : DmlCore.stmt -> Prop) : Prop :=
+  match DmlCore.parse_dml_core d 10 ts with Ok (s, []) => P s | _ => False end.
+(** the printed tokens of the tree parse back to it *)
+Definition dml_back (d : DmlCore.mdialect) (s : DmlCore.stmt) : bool :=
+  match DmlCore.parse_dml_core d 10 (DmlCore.mtoks s) with Ok (s2, []) => DmlCore.stmt_eqb s s2 | _ => false end.
+Definition kI := DmlCore.kw DmlCore.DInsert.   Definition kInto := DmlCore.kw DmlCore.DInto.
+Definition kD := DmlCore.kw DmlCore.DDelete.   Definition kSet := DmlCore.kw DmlCore.DSet.
+Definition kRet := DmlCore.kw DmlCore.DReturning.
+
+(** [frag_ok] cannot be proved of parser outputs: [DELETE FROM x1 WHERE x2 IN (x3) -> x4] (Databricks: lambdas) is
+    accepted, canonical and [mwfg false], but [( x3 ) ->] looks like a lambda to [frag_ok]; the statement is a fixpoint *)
+Example C01_dml_output_frag_refuted :
+  dml_out DmlTables.md_databricks
+    [kD; QE (TKw KFrom); qx 1; QK KWhere; qx 2; QE (TKw KIn); QE TLParen; qx 3; QE TRParen; QE (TOp K_Arrow); qx 4]
+    (fun s => DmlCoreInv.mcanonical s = true /\ DmlCoreInv.mplain s = false /\ DmlCoreInv.mres_ins DmlTables.md_databricks s = true /\
+              DmlCoreInv.mwfg false DmlTables.md_databricks s = true /\ DmlCoreProofs.mwf DmlTables.md_databricks s = false /\
+              DmlCoreInv.mfragx DmlTables.md_databricks s = false /\ dml_back DmlTables.md_databricks s = true).
+Proof. vm_compute. repeat split; reflexivity. Qed.
+
+(** [mplain]: [INSERT INTO x1 (SET) VALUES (1)] - a DML keyword is a column name; [mwf] is false (conservatively:
+    the statement is a fixpoint) *)
+Example C01_dml_output_plain_refuted :
+  dml_out DmlTables.md_generic
+    [kI; kInto; qx 1; QE TLParen; kSet; QE TRParen; QK KValues; QE TLParen; QE (TAtom false 5001); QE TRParen]
+    (fun s => DmlCoreInv.mcanonical s = true /\ DmlCoreInv.mplain s = true /\ DmlCoreInv.mres DmlTables.md_generic s = true /\
+              DmlCoreInv.mwfg false DmlTables.md_generic s = false /\ dml_back DmlTables.md_generic s = true).
+Proof. vm_compute. repeat split; reflexivity. Qed.
+
+(** [mres_ins]: MySQL [INSERT INTO x1 () (SELECT x2)] prints [INSERT INTO x1 (SELECT x2)], which is rejected *)
+Example C01_dml_output_empty_columns_refuted :
+  dml_out DmlTables.md_mysql
+    [kI; kInto; qx 1; QE TLParen; QE TRParen; QE TLParen; QK KSelect; qx 2; QE TRParen]
+    (fun s => DmlCoreInv.mcanonical s = true /\ DmlCoreInv.mplain s = false /\ DmlCoreInv.mres_ins DmlTables.md_mysql s = false /\
+              DmlCoreInv.mwfg false DmlTables.md_mysql s = false /\ dml_back DmlTables.md_mysql s = false).
+Proof. vm_compute. repeat split; reflexivity. Qed.
+
+(** outside [mdialect_res] the other two conjuncts of [mres] fail for parser outputs.  RETURNING not reserved as a
+    table alias: [INSERT INTO x1 SELECT x2 FROM x3 LIMIT ALL RETURNING x4] prints without LIMIT ALL and re-parses
+    with RETURNING as the alias of x3 (repaired in the crate: 73841ea); USING ends a list under trailing commas:
+    [DELETE FROM x1 JOIN x2, USING x3] prints without the comma and USING reads as the constraint of the join *)
+Definition md_using : DmlCore.mdialect :=
+  {| DmlCore.qd := {| base := d_generic; res_col := QK KUsing :: res_col_all; res_tab := res_tab_all; limit_comma := false;
+                      limit_by := false; trailing := true; proj_trailing := false; wild_except := false; wild_ilike := false;
+                      select_as := false; unnest_table := false; hyphen_table := false; group_by_expr := false;
+                      paren_tables := false; group_with := false; exists_fn := false; values_empty := false |};
+     DmlCore.kw_col := [kRet; kInto]; DmlCore.kw_tab := [kSet; kRet]; DmlCore.ins_tab_alias := false;
+     DmlCore.ins_row_alias := false; DmlCore.ins_empty_cols := false; DmlCore.ins_after_cols := false;
+     DmlCore.upd_from := true; DmlCore.del_nofrom := false |}.
+Example C01_dml_output_reserved_refuted :
+  let d1 := md_switch k_set false true false in
+  (DmlCoreProofs.mdialect_ok d1 = true /\ DmlCoreInv.mdialect_res d1 = false /\
+   dml_out d1 [kI; kInto; qx 1; QK KSelect; qx 2; QE (TKw KFrom); qx 3; QK KLimit; QE (TKw KAll); kRet; qx 4]
+     (fun s => DmlCoreInv.mcanonical s = true /\ DmlCoreInv.mplain s = false /\ DmlCoreInv.mres_ins d1 s = true /\
+               DmlCoreInv.mres d1 s = false /\ DmlCoreInv.mwfg false d1 s = false /\ dml_back d1 s = false)) /\
+  (DmlCoreProofs.mdialect_ok md_using = true /\ DmlCoreInv.mdialect_res md_using = false /\
+   dml_out md_using [kD; QE (TKw KFrom); qx 1; QK KJoin; qx 2; QE TComma; QK KUsing; qx 3]
+     (fun s => DmlCoreInv.mcanonical s = true /\ DmlCoreInv.mplain s = false /\ DmlCoreInv.mres_ins md_using s = true /\
+               DmlCoreInv.mres_using s = false /\ DmlCoreInv.mwfg false md_using s = false /\ dml_back md_using s = false)).
+Proof. vm_compute. repeat split; reflexivity. Qed.
